@@ -57,10 +57,18 @@ func (h *Handler) HandleOpenDir(ctx *Context, path string) bool {
 		ctx.State.CwdHandle = nil
 	}
 
+	// it's crucial to send "true" for directory and "false" for file
+	if !info.IsDir() {
+		// nothing can be enumerated from a non-directory: do not keep it as the current directory
+		if err := handle.Close(); err != nil {
+			log.WarnContext(ctx, "Close failed", logutil.ErrorAttr(err))
+		}
+		return false
+	}
+
 	ctx.State.CwdHandle = handle
 
-	// it's crucial to send "true" for directory and "false" for file
-	return info.IsDir()
+	return true
 }
 
 func (h *Handler) HandleReadDirEntry(ctx *Context) fs.FileInfo {
